@@ -69,6 +69,12 @@ def _strategy(draw):
                 idx = base + k
                 res["atoms"].append({"name": f"{rn[1].lower()}{idx + 1}", "type": draw(st.sampled_from(types)), "mass": 36.0})
                 res["bonds"].append([draw(st.integers(0, idx - 1)), idx, 0.3])
+    for rn, res in resdefs.items():
+        if res["vs"] is None and len(res["atoms"]) >= 2 and draw(st.integers(0, 3)) == 0:
+            # two atom names that differ in case only (a1 and A1, as CA the carbon and Ca the ion): names are case
+            # sensitive, each atom takes the template position of its own name
+            res["atoms"][-1]["name"] = res["atoms"][0]["name"].upper()
+            spec["case_twin_atom_names"] = True
     # all residues with the same name share the same definition object content
     for mt in spec["moltypes"]:
         mt["residues"] = [resdefs[r["resname"]] for r in mt["residues"]]
